@@ -31,6 +31,7 @@ def run_scenario(script, readings, restarts=0):
     frame = [0]
     times = iter(readings)
     handles = []
+    loop_box = [None]
 
     @desper.event_handler('on_switch_in', 'on_switch_out', 'on_quit')
     class Listener:
@@ -59,6 +60,11 @@ def run_scenario(script, readings, restarts=0):
                               from_world=self.world)
             if act[0] == 'raise_switch':
                 raise desper.SwitchWorld(handles[act[1]], clear_current=act[2], clear_next=act[3])
+            if act[0] == 'direct_switch':
+                # the public method of the loop, called from inside a frame: the frame ends
+                # normally and the next one processes the new current world
+                loop_box[0].switch(handles[act[1]])
+                return
             if act[0] == 'quit_loop':
                 desper.quit_loop(self.world)
             if act[0] == 'quit':
@@ -83,6 +89,7 @@ def run_scenario(script, readings, restarts=0):
             return w
     handles.extend([WH(0), WH(1)])
     loop = desper.SimpleLoop(lambda: next(times))
+    loop_box[0] = loop
     loop.switch(handles[0])
     out = {'log': log, 'errors': [], 'starts': []}
     try:
@@ -136,6 +143,14 @@ def judge(script, readings, restarts, out):
     if len([e for e in log if e[0] == 'on_quit']) != n_quit_loop:
         return ('C14', 'on_quit delivered %d times for %d quit_loop calls' % (
             len([e for e in log if e[0] == 'on_quit']), n_quit_loop), 'on_quit')
+    # ---- C14: the loop processes its CURRENT world: after loop.switch(h) called from inside a
+    # frame, the next frame belongs to the world that handle holds
+    for idx, act in enumerate(script[:len(procs)]):
+        if act[0] == 'direct_switch' and idx + 1 < len(procs):
+            insts = [id(w) for w in out['handles'][act[1]].instances]
+            if procs[idx + 1][1] not in insts:
+                return ('C14', 'after loop.switch(h%d) inside frame %d the next frame processed another world '
+                               'than the current one' % (act[1], idx), 'stale-world')
     # ---- C13: for every switch() request, out once in the world left, in once in the instance
     # that is processed next, target loaded as often as a fresh instance was required
     for idx, act in enumerate(script[:len(procs)]):
@@ -160,7 +175,8 @@ def judge(script, readings, restarts, out):
 def scenarios(tier):
     acts = [('none',), ('switch', 1, False, False), ('switch', 0, False, False),
             ('switch', 1, True, False), ('raise_switch', 1, False, False), ('raise_switch', 1, False, True),
-            ('quit_loop',), ('quit',), ('error',), ('switch', 1, False, True), ('switch', 0, True, False)]
+            ('quit_loop',), ('quit',), ('error',), ('switch', 1, False, True), ('switch', 0, True, False),
+            ('direct_switch', 1), ('direct_switch', 0)]
     n = 3 if tier != 'thorough' else 4
     for readings in ([0, 3, 10, 17, 18, 19, 25, 26, 30, 31], [5, 5, 6, 9.5, 10, 12, 13, 20, 21, 22]):
         for k in range(1, n + 1):
